@@ -98,6 +98,11 @@ class Report:
         os.makedirs(os.path.join(REPLAYS, self.pid), exist_ok=True)
         h = hashlib.sha256(json.dumps(payload, sort_keys=True, default=str).encode()).hexdigest()[:12]
         path = os.path.join(REPLAYS, self.pid, f"{clause}-{h}.json")
+        self._per_clause = getattr(self, "_per_clause", {})
+        self._per_clause[clause] = self._per_clause.get(clause, 0) + 1
+        if self._per_clause[clause] > 5:            # keep at most 5 replay files per clause
+            self.violations.append((clause, None, text))
+            return None
         with open(path, "w") as fh:
             json.dump({"property": self.pid, "clause": clause, "text": text, "case": payload},
                       fh, indent=1, default=str)
@@ -120,12 +125,11 @@ class Report:
             json.dump(ev, fh, indent=1, default=str)
         for k in self.known:
             print(f"KNOWN-FINDING: property={self.pid} {k}")
-        seen = set()
+        for clause, n in sorted(getattr(self, "_per_clause", {}).items()):
+            print(f"[{self.pid}] clause {clause}: {n} violating case(s)")
         for clause, path, text in self.violations:
-            if clause in seen and len(seen) > 20:
-                continue
-            seen.add(clause)
-            print(f"VIOLATION property={self.pid} replay={path}   # clause={clause} {text}")
+            if path is not None:
+                print(f"VIOLATION property={self.pid} replay={path}   # clause={clause} {text}")
         print(f"[{self.pid}] tier={self.tier} evaluations={self.cov['evaluations']} "
               f"states={self.cov['states']} traces={self.cov['traces_validated_against_impl']} "
               f"violations={len(self.violations)} known={len(self.known)} wall={wall:.1f}s")
